@@ -1,15 +1,25 @@
 #!/bin/bash
-# re-run every stored seeded change against its property's check (scratch worktrees; nothing applied to /repo) and tabulate
+# re-run every stored seeded change against its property's check (scratch worktrees; nothing applied to /repo) and tabulate.
+# usage: tools/seeded_all.sh [parallel-streams (default 4)] — one stream handles whole properties, so two runs never share a property's generated files
 cd "$(dirname "$0")/.."
-for d in seeded/*/; do
-  id=$(basename $d)
-  out=$(python3 tools/seeded.py run $id 2>&1 | grep "check rc" | head -1)
-  viol=$(python3 - <<PY
+P=${1:-4}
+one_prop() {
+  p=$1
+  for d in $(ls -d seeded/$p-* | sort -t- -k2 -n); do
+    id=$(basename $d)
+    if python3 -c "import json,sys; sys.exit(0 if json.load(open('seeded/$id/meta.json')).get('out_of_scope') else 1)"; then
+      echo "$id out-of-scope (not run)"; continue
+    fi
+    out=$(python3 tools/seeded.py run $id 2>&1 | grep "check rc" | head -1)
+    viol=$(python3 - <<PY
 import json
 m=json.load(open("seeded/$id/meta.json"))
 o=m["check"]["output"]
 print("concrete" if any(l.startswith("VIOLATION") and "no-failing-input-found" not in l for l in o) else ("weak" if any("no-failing-input-found" in l for l in o) else "MISSED"))
 PY
 )
-  echo "$id $viol $out"
-done
+    echo "$id $viol $out"
+  done
+}
+export -f one_prop
+ls seeded | sed 's/-.*//' | sort -u | xargs -P "$P" -I{} bash -c 'one_prop {}'
